@@ -151,6 +151,13 @@ func verifyUnit(w *World, u *Unit, opt Options) *UnitResult {
 		return res
 	}
 	res.Obls = ex.obls
+	if len(u.C.IfaceEnsures) > 0 && len(u.C.Requires) > 0 {
+		var ls []string
+		for _, cl := range u.C.Requires {
+			ls = append(ls, cl.Label)
+		}
+		ex.used["ASSUMED at interface dispatch: the preconditions of "+u.Name+" ("+strings.Join(ls, ", ")+") hold whenever it is reached through "+u.C.IfaceEnsures[0].From.Name+" — they are representation invariants set up by the constructor of the implementing type; dispatch sites are checked against the interface contract only"] = true
+	}
 	// chunked batch proving, falling back to single obligations
 	chunk := opt.ChunkSize
 	if chunk <= 0 {
@@ -215,6 +222,11 @@ func verifyUnit(w *World, u *Unit, opt Options) *UnitResult {
 		}
 		q := ex.header() + ex.prefix(len(ex.items)) + "(assert " + or(ex.returnReach...) + ")\n"
 		r := solveCover(q, sanitize(u.Name)+".vac", 3000)
+		if r.Status != "sat" && r.Status != "unsat" {
+			// no model found quickly (quantified assumptions): give the solvers the time an obligation gets to find a
+			// contradiction among the assumptions, which is what a vacuous unit would be
+			r = solveCover(q, sanitize(u.Name)+".vac2", 15000)
+		}
 		switch r.Status {
 		case "sat":
 			vac <- "ok"
